@@ -6,9 +6,10 @@ user does not himself overwrite or remove the built-in layer.
 -/
 namespace Mesa.Layers
 
-/-- An op by which the *user* (not the grid) writes to, re-points, takes a reference to or removes
-    the built-in `empty` layer of a `new` grid (layer id 0, name "empty").  The legacy `_empty_mask`
-    is not reachable through any op, so every op is safe there. -/
+/-- The static part of safety: an op by which the *user* (not the grid) writes to, re-points or removes the built-in
+    `empty` layer of a `new` grid (layer id 0, name "empty") through the layer or the cell attribute.  Taking a
+    reference to its array (`grab h 0`; legacy: `grabMask h` = `grid.empty_mask`) and reading through it is safe;
+    whether a *write* through a reference is safe depends on the state (`Op.safeAt`). -/
 def Op.safe (impl : Impl) : Op → Bool
   | .layerSet l _ _ => impl != .new || l != 0
   | .setCells l _ _ => impl != .new || l != 0
@@ -18,19 +19,36 @@ def Op.safe (impl : Impl) : Op → Bool
   | .modifyU l _ _ _ _ => impl != .new || l != 0
   | .modifyCell l _ _ => impl != .new || l != 0
   | .modifyCellU l _ _ _ => impl != .new || l != 0
-  | .grab _ l => impl != .new || l != 0
   | .cellSet n _ _ => impl != .new || n != "empty"
   | .cellSet2 l _ _ => impl != .new || l != 0
   | .detach n => impl != .new || n != "empty"
   | _ => true
+
+/-- Safety of an op in the state it is issued in: a write through a user-held reference (`h[c] = v`) is the user's own
+    overwrite of the emptiness view exactly when the reference aliases the emptiness array (array 0: obtained by
+    `grab h 0` on a cell space, `grabMask h` on a legacy grid); everything else is judged statically. -/
+def Op.safeAt (s : State) : Op → Bool
+  | .hset h _ _ => match s.handles.lookup h with
+    | some (a, _) => a != 0
+    | none => true
+  | op => op.safe s.impl
+
+/-- a history each of whose ops is safe in the state it is issued in -/
+def safeHist : State → List Op → Prop
+  | _, [] => True
+  | s, op :: ops => op.safeAt s = true ∧ safeHist (step s op).1 ops
+
+instance safeHist.dec : (s : State) → (ops : List Op) → Decidable (safeHist s ops)
+  | _, [] => isTrue trivial
+  | s, op :: ops => by
+    unfold safeHist
+    exact @instDecidableAnd _ _ _ (safeHist.dec (step s op).1 ops)
 
 structure EmpInv (s : State) : Prop where
   /-- new grids: the name "empty" is attached to layer 0, which still owns array 0 -/
   named : s.impl = .new → s.attached.lookup "empty" = some 0 ∧ (s.layers 0).data = 0 ∧ 0 < s.nLayers
   /-- new grids: the descriptor `empty` of the cell class holds layer 0 -/
   dnamed : s.impl = .new → s.descr.lookup "empty" = some 0
-  /-- no user-held reference aliases array 0 -/
-  handles : ∀ h a d, s.handles.lookup h = some (a, d) → a ≠ 0
   /-- an agent is placed at most once -/
   keys : (s.agents.map (·.1)).Nodup
   /-- SingleGrid: at most one agent per cell -/
@@ -49,7 +67,6 @@ theorem EmpInv_init (impl : Impl) (dims : List Nat) (cap : Nat) : EmpInv (init i
   · intro h
     simp only [init] at h
     simp [init, h]
-  · intro h a d hh; simp [init] at hh
   · simp [init]
   · intro _; simp [init]
   · intro c; simp [init, State.isEmptyCell, boolInt]
@@ -76,7 +93,7 @@ theorem named_ne_zero {s : State} (hw : WF s) (h : EmpInv s) (hi : s.impl = .new
 theorem EmpInv.transfer {s s' : State} (h : EmpInv s) (e1 : s'.impl = s.impl)
     (e2 : s.impl = .new → s'.attached.lookup "empty" = s.attached.lookup "empty")
     (e3 : s.impl = .new → s'.layers 0 = s.layers 0)
-    (e4 : s.nLayers ≤ s'.nLayers) (e5 : ∀ h a d, s'.handles.lookup h = some (a, d) → a ≠ 0)
+    (e4 : s.nLayers ≤ s'.nLayers)
     (e6 : s'.agents = s.agents) (e7 : s'.heap 0 = s.heap 0)
     (e8 : s.impl = .new → s'.descr.lookup "empty" = s.descr.lookup "empty" := by intros; rfl) : EmpInv s' := by
   constructor
@@ -87,7 +104,6 @@ theorem EmpInv.transfer {s s' : State} (h : EmpInv s) (e1 : s'.impl = s.impl)
   · intro hi
     rw [e1] at hi
     exact (e8 hi).trans (h.dnamed hi)
-  · exact e5
   · rw [e6]; exact h.keys
   · rw [e1, e6]; exact h.single
   · intro c
@@ -153,7 +169,6 @@ theorem EmpInv_enter {s : State} (h : EmpInv s) (a : Nat) (c : Coord)
   constructor
   · exact h.named
   · exact h.dnamed
-  · exact h.handles
   · show ((s.agents ++ [(a, c)]).map (·.1)).Nodup
     rw [List.map_append, List.nodup_append]
     refine ⟨h.keys, by simp, ?_⟩
@@ -217,7 +232,7 @@ theorem EmpInv_leave {s : State} (h : EmpInv s) (a : Nat) (c0 : Coord) (hl : s.a
       EmpInv (writeEmpty { s with agents := s.agents.filter (·.1 ≠ a) } c0 v) := by
     intro v hv
     rw [writeEmpty_eq hn]
-    refine ⟨h.named, h.dnamed, h.handles, hkeys, hsingle, ?_⟩
+    refine ⟨h.named, h.dnamed, hkeys, hsingle, ?_⟩
     intro c'
     show upd s.heap 0 ((s.heap 0).set c0 v) 0 c' = _
     rw [upd_same]
@@ -260,7 +275,7 @@ theorem EmpInv_leave {s : State} (h : EmpInv s) (a : Nat) (c0 : Coord) (hl : s.a
       rw [he]; rfl
     · next he =>
       -- MultiGrid, cell still occupied: no write, and array 0 already says "occupied"
-      refine ⟨h.named, h.dnamed, h.handles, hkeys, hsingle, ?_⟩
+      refine ⟨h.named, h.dnamed, hkeys, hsingle, ?_⟩
       intro c'
       show s.heap 0 c' = _
       by_cases hc : c' = c0
@@ -389,7 +404,7 @@ theorem EmpInv_setCells {s : State} (hw : WF s) (h : EmpInv s) (l : Nat) (v : In
   · exact h
   · next L hl =>
     obtain ⟨hlt, rfl⟩ := layer?_some hl
-    exact h.transfer rfl (fun _ => rfl) (fun _ => rfl) (Nat.le_refl _) h.handles rfl
+    exact h.transfer rfl (fun _ => rfl) (fun _ => rfl) (Nat.le_refl _) rfl
       (upd_heap_zero _ _ _ (data_ne_zero hw h hlt hs))
 
 theorem EmpInv_modifyCellsT {s : State} (hw : WF s) (h : EmpInv s) (l : Nat) (f : Option (Int → Int))
@@ -403,7 +418,7 @@ theorem EmpInv_modifyCellsT {s : State} (hw : WF s) (h : EmpInv s) (l : Nat) (f 
     obtain ⟨hlt, rfl⟩ := layer?_some hl
     split
     · exact h
-    · refine h.transfer rfl (fun _ => rfl) ?_ (Nat.le_refl _) h.handles rfl
+    · refine h.transfer rfl (fun _ => rfl) ?_ (Nat.le_refl _) rfl
         (upd_heap_zero _ _ _ (by omega))
       intro hi
       exact upd_other _ _ _ _ (fun e => hs hi e.symm)
@@ -421,7 +436,7 @@ theorem EmpInv_modifyCell {s : State} (hw : WF s) (h : EmpInv s) (l : Nat) (c : 
       · exact h
       · split
         · exact h
-        · exact h.transfer rfl (fun _ => rfl) (fun _ => rfl) (Nat.le_refl _) h.handles rfl
+        · exact h.transfer rfl (fun _ => rfl) (fun _ => rfl) (Nat.le_refl _) rfl
             (upd_heap_zero _ _ _ (data_ne_zero hw h hlt hs))
 
 /-- registering a descriptor under a name that is not attached leaves the descriptor `empty` alone -/
@@ -438,7 +453,7 @@ theorem descr_empty_setDescr {s : State} (h : EmpInv s) (hi : s.impl = .new) {n 
   rw [List.lookup_cons, hb]
   exact lookup_filter_ne _ _ _ hne
 
-theorem EmpInv_step {s : State} (hw : WF s) (h : EmpInv s) (op : Op) (hs : op.safe s.impl = true) :
+theorem EmpInv_step {s : State} (hw : WF s) (h : EmpInv s) (op : Op) (hs : op.safeAt s = true) :
     EmpInv (step s op).1 := by
   have hnp := hw.next_pos
   cases op with
@@ -448,7 +463,7 @@ theorem EmpInv_step {s : State} (hw : WF s) (h : EmpInv s) (op : Op) (hs : op.sa
     split
     · exact h
     · next hchk =>
-      refine h.transfer rfl ?_ ?_ (Nat.le_succ _) h.handles rfl (upd_heap_zero _ _ _ (by omega))
+      refine h.transfer rfl ?_ ?_ (Nat.le_succ _) rfl (upd_heap_zero _ _ _ (by omega))
         (fun hi => descr_empty_setDescr h hi _ (attachCheck_none hchk).1)
       · intro hi
         show (s.attached ++ [(n, s.nLayers)]).lookup "empty" = _
@@ -460,7 +475,7 @@ theorem EmpInv_step {s : State} (hw : WF s) (h : EmpInv s) (op : Op) (hs : op.sa
     unfold newLayer
     split
     · exact h
-    · refine h.transfer rfl (fun _ => rfl) ?_ (Nat.le_succ _) h.handles rfl (upd_heap_zero _ _ _ (by omega))
+    · refine h.transfer rfl (fun _ => rfl) ?_ (Nat.le_succ _) rfl (upd_heap_zero _ _ _ (by omega))
       intro hi
       exact upd_other _ _ _ _ (by have := (h.named hi).2.2; omega)
   | attach l =>
@@ -471,7 +486,7 @@ theorem EmpInv_step {s : State} (hw : WF s) (h : EmpInv s) (op : Op) (hs : op.sa
     · split
       · exact h
       · next l' _ _ hchk =>
-        refine h.transfer rfl ?_ (fun _ => rfl) (Nat.le_refl _) h.handles rfl rfl
+        refine h.transfer rfl ?_ (fun _ => rfl) (Nat.le_refl _) rfl rfl
           (fun hi => descr_empty_setDescr h hi _ (attachCheck_none hchk).1)
         intro hi
         show (s.attached ++ [(l'.name, l)]).lookup "empty" = _
@@ -483,9 +498,9 @@ theorem EmpInv_step {s : State} (hw : WF s) (h : EmpInv s) (op : Op) (hs : op.sa
     · exact h
     · have hne : s.impl = .new → "empty" ≠ n := by
         intro hi
-        simp only [Op.safe, hi, bne_self_eq_false, Bool.false_or, bne_iff_ne, ne_eq] at hs
+        simp only [Op.safeAt, Op.safe, hi, bne_self_eq_false, Bool.false_or, bne_iff_ne, ne_eq] at hs
         exact fun e => hs e.symm
-      exact h.transfer rfl (fun hi => lookup_filter_ne _ _ _ (hne hi)) (fun _ => rfl) (Nat.le_refl _) h.handles rfl rfl
+      exact h.transfer rfl (fun hi => lookup_filter_ne _ _ _ (hne hi)) (fun _ => rfl) (Nat.le_refl _) rfl rfl
         (fun hi => lookup_filter_ne _ _ _ (hne hi))
   | layerSet l c v =>
     simp only [step]
@@ -496,10 +511,10 @@ theorem EmpInv_step {s : State} (hw : WF s) (h : EmpInv s) (op : Op) (hs : op.sa
       obtain ⟨hlt, rfl⟩ := layer?_some hl
       split
       · exact h
-      · refine h.transfer rfl (fun _ => rfl) (fun _ => rfl) (Nat.le_refl _) h.handles rfl
+      · refine h.transfer rfl (fun _ => rfl) (fun _ => rfl) (Nat.le_refl _) rfl
           (upd_heap_zero _ _ _ (data_ne_zero hw h hlt ?_))
         intro hi
-        simpa [Op.safe, hi] using hs
+        simpa [Op.safeAt, Op.safe, hi] using hs
   | layerGet l c => exact h
   | cellSet n c v =>
     simp only [step]
@@ -513,12 +528,12 @@ theorem EmpInv_step {s : State} (hw : WF s) (h : EmpInv s) (op : Op) (hs : op.sa
         · unfold cellAttrWrite
           split
           · next lid hn =>
-            have hne : n ≠ "empty" := by simpa [Op.safe, hi] using hs
+            have hne : n ≠ "empty" := by simpa [Op.safeAt, Op.safe, hi] using hs
             rw [hw.descr_eq hi n] at hn
             have hl0 := named_ne_zero hw h hi hn hne
-            exact h.transfer rfl (fun _ => rfl) (fun _ => rfl) (Nat.le_refl _) h.handles rfl
+            exact h.transfer rfl (fun _ => rfl) (fun _ => rfl) (Nat.le_refl _) rfl
               (upd_heap_zero _ _ _ (data_ne_zero hw h (hw.att_lt n lid hn) (fun _ => hl0)))
-          · exact h.transfer rfl (fun _ => rfl) (fun _ => rfl) (Nat.le_refl _) h.handles rfl rfl
+          · exact h.transfer rfl (fun _ => rfl) (fun _ => rfl) (Nat.le_refl _) rfl rfl
     · next hi =>
       split
       · exact h
@@ -527,7 +542,7 @@ theorem EmpInv_step {s : State} (hw : WF s) (h : EmpInv s) (op : Op) (hs : op.sa
         split
         · exact h
         · have hi' : s.impl ≠ .new := hi
-          exact h.transfer rfl (fun _ => rfl) (fun _ => rfl) (Nat.le_refl _) h.handles rfl
+          exact h.transfer rfl (fun _ => rfl) (fun _ => rfl) (Nat.le_refl _) rfl
             (upd_heap_zero _ _ _ (data_ne_zero hw h (hw.att_lt n lid hn) (fun e => absurd e hi')))
   | cellGet n c => exact h
   | cellSet2 l c w =>
@@ -542,13 +557,13 @@ theorem EmpInv_step {s : State} (hw : WF s) (h : EmpInv s) (op : Op) (hs : op.sa
         obtain ⟨hlt, rfl⟩ := layer?_some hl
         split
         · exact h
-        · refine h.transfer rfl (fun _ => rfl) (fun _ => rfl) (Nat.le_refl _) h.handles rfl
+        · refine h.transfer rfl (fun _ => rfl) (fun _ => rfl) (Nat.le_refl _) rfl
             (upd_heap_zero _ _ _ (data_ne_zero hw h hlt ?_))
           intro hi
-          simpa [Op.safe, hi] using hs
+          simpa [Op.safeAt, Op.safe, hi] using hs
   | cellGet2 l c => exact h
   | setCells l w cond =>
-    have hl0 : s.impl = .new → l ≠ 0 := fun hi => by simpa [Op.safe, hi] using hs
+    have hl0 : s.impl = .new → l ≠ 0 := fun hi => by simpa [Op.safeAt, Op.safe, hi] using hs
     cases w with
     | raw v => exact vecGuard_fst (P := EmpInv) _ _ _ _ (EmpInv_setCells hw h l v cond hl0) h
     | py x =>
@@ -575,13 +590,13 @@ theorem EmpInv_step {s : State} (hw : WF s) (h : EmpInv s) (op : Op) (hs : op.sa
           · exact h
           · split
             · exact h
-            · refine h.transfer rfl (fun _ => rfl) (fun _ => rfl) (Nat.le_refl _) h.handles rfl
+            · refine h.transfer rfl (fun _ => rfl) (fun _ => rfl) (Nat.le_refl _) rfl
                 (upd_heap_zero _ _ _ (data_ne_zero hw h hlt ?_))
               intro hi
-              simpa [Op.safe, hi] using hs
+              simpa [Op.safeAt, Op.safe, hi] using hs
   | modifyT l f cond rd =>
     exact vecGuard_fst (P := EmpInv) _ _ _ _
-      (EmpInv_modifyCellsT hw h l f cond rd (fun hi => by simpa [Op.safe, hi] using hs)) h
+      (EmpInv_modifyCellsT hw h l f cond rd (fun hi => by simpa [Op.safeAt, Op.safe, hi] using hs)) h
   | modifyU l vec op x cond =>
     simp only [step]
     refine vecGuard_fst (P := EmpInv) _ _ _ _ ?_ h
@@ -590,7 +605,7 @@ theorem EmpInv_step {s : State} (hw : WF s) (h : EmpInv s) (op : Op) (hs : op.sa
     · exact h
     · split
       · exact h
-      · exact EmpInv_modifyCellsT hw h l _ cond _ (fun hi => by simpa [Op.safe, hi] using hs)
+      · exact EmpInv_modifyCellsT hw h l _ cond _ (fun hi => by simpa [Op.safeAt, Op.safe, hi] using hs)
   | modifyCells l vec f cond =>
     simp only [step]
     refine vecGuard_fst (P := EmpInv) _ _ _ _ ?_ h
@@ -601,10 +616,10 @@ theorem EmpInv_step {s : State} (hw : WF s) (h : EmpInv s) (op : Op) (hs : op.sa
       obtain ⟨hlt, rfl⟩ := layer?_some hl
       split
       · exact h
-      · refine h.transfer rfl (fun _ => rfl) ?_ (Nat.le_refl _) h.handles rfl
+      · refine h.transfer rfl (fun _ => rfl) ?_ (Nat.le_refl _) rfl
           (upd_heap_zero _ _ _ (by omega))
         intro hi
-        have : l ≠ 0 := by simpa [Op.safe, hi] using hs
+        have : l ≠ 0 := by simpa [Op.safeAt, Op.safe, hi] using hs
         exact upd_other _ _ _ _ (fun e => this e.symm)
   | modifyCell l c f =>
     simp only [step]
@@ -619,10 +634,10 @@ theorem EmpInv_step {s : State} (hw : WF s) (h : EmpInv s) (op : Op) (hs : op.sa
         · exact h
         · split
           · exact h
-          · refine h.transfer rfl (fun _ => rfl) (fun _ => rfl) (Nat.le_refl _) h.handles rfl
+          · refine h.transfer rfl (fun _ => rfl) (fun _ => rfl) (Nat.le_refl _) rfl
               (upd_heap_zero _ _ _ (data_ne_zero hw h hlt ?_))
             intro hi
-            simpa [Op.safe, hi] using hs
+            simpa [Op.safeAt, Op.safe, hi] using hs
   | modifyCellU l c op x =>
     simp only [step]
     unfold modifyCellU
@@ -634,7 +649,7 @@ theorem EmpInv_step {s : State} (hw : WF s) (h : EmpInv s) (op : Op) (hs : op.sa
         · exact h
         · split
           · exact h
-          · exact EmpInv_modifyCell hw h l c _ (fun hi => by simpa [Op.safe, hi] using hs)
+          · exact EmpInv_modifyCell hw h l c _ (fun hi => by simpa [Op.safeAt, Op.safe, hi] using hs)
   | fromData n hd =>
     simp only [step]
     unfold fromData
@@ -644,7 +659,7 @@ theorem EmpInv_step {s : State} (hw : WF s) (h : EmpInv s) (op : Op) (hs : op.sa
       · exact h
       · split
         · exact h
-        · refine h.transfer rfl (fun _ => rfl) ?_ (Nat.le_succ _) h.handles rfl (upd_heap_zero _ _ _ (by omega))
+        · refine h.transfer rfl (fun _ => rfl) ?_ (Nat.le_succ _) rfl (upd_heap_zero _ _ _ (by omega))
           intro hi
           exact upd_other _ _ _ _ (by have := (h.named hi).2.2; omega)
   | grab hd l =>
@@ -653,17 +668,13 @@ theorem EmpInv_step {s : State} (hw : WF s) (h : EmpInv s) (op : Op) (hs : op.sa
     split
     · exact h
     · next L hl =>
-      obtain ⟨hlt, rfl⟩ := layer?_some hl
-      refine h.transfer rfl (fun _ => rfl) (fun _ => rfl) (Nat.le_refl _) ?_ rfl rfl
-      intro hh a d hlk
-      simp only [List.lookup_cons] at hlk
-      split at hlk
-      · simp at hlk
-        rw [← hlk.1]
-        refine data_ne_zero hw h hlt ?_
-        intro hi
-        simpa [Op.safe, hi] using hs
-      · exact h.handles hh a d hlk
+      exact h.transfer rfl (fun _ => rfl) (fun _ => rfl) (Nat.le_refl _) rfl rfl
+  | grabMask hd =>
+    simp only [step]
+    unfold grabMask
+    split
+    · exact h
+    · exact h.transfer rfl (fun _ => rfl) (fun _ => rfl) (Nat.le_refl _) rfl rfl
   | hget hd c => exact h
   | hset hd c v =>
     simp only [step]
@@ -673,8 +684,9 @@ theorem EmpInv_step {s : State} (hw : WF s) (h : EmpInv s) (op : Op) (hs : op.sa
     · next a d hlk =>
       split
       · exact h
-      · exact h.transfer rfl (fun _ => rfl) (fun _ => rfl) (Nat.le_refl _) h.handles rfl
-          (upd_heap_zero _ _ _ (h.handles hd a d hlk))
+      · have ha : a ≠ 0 := by simpa [Op.safeAt, hlk] using hs
+        exact h.transfer rfl (fun _ => rfl) (fun _ => rfl) (Nat.le_refl _) rfl
+          (upd_heap_zero _ _ _ ha)
   | hdump hd => exact h
   | dump l => exact h
   | dumpName n => exact h
@@ -692,7 +704,7 @@ theorem EmpInv_step {s : State} (hw : WF s) (h : EmpInv s) (op : Op) (hs : op.sa
     · exact h
     · split
       · exact h
-      · exact h.transfer rfl (fun _ => rfl) (fun _ => rfl) (Nat.le_refl _) h.handles rfl rfl
+      · exact h.transfer rfl (fun _ => rfl) (fun _ => rfl) (Nat.le_refl _) rfl rfl
   | nbhdMask k geom torus c ic r =>
     simp only [step]
     unfold nbhdMask
@@ -702,7 +714,7 @@ theorem EmpInv_step {s : State} (hw : WF s) (h : EmpInv s) (op : Op) (hs : op.sa
       · exact h
       · split
         · exact h
-        · exact h.transfer rfl (fun _ => rfl) (fun _ => rfl) (Nat.le_refl _) h.handles rfl rfl
+        · exact h.transfer rfl (fun _ => rfl) (fun _ => rfl) (Nat.le_refl _) rfl rfl
   | select ms oe conds exts save =>
     simp only [step]
     split
@@ -711,7 +723,7 @@ theorem EmpInv_step {s : State} (hw : WF s) (h : EmpInv s) (op : Op) (hs : op.sa
       · exact h
       · split
         · exact h
-        · exact h.transfer rfl (fun _ => rfl) (fun _ => rfl) (Nat.le_refl _) h.handles rfl rfl
+        · exact h.transfer rfl (fun _ => rfl) (fun _ => rfl) (Nat.le_refl _) rfl rfl
 
 theorem step_impl (s : State) (op : Op) : (step s op).1.impl = s.impl := by
   cases op with
@@ -770,6 +782,7 @@ theorem step_impl (s : State) (op : Op) : (step s op).1.impl = s.impl := by
       · rfl
       · split <;> rfl
   | grab hd l => simp only [step]; unfold grab; split <;> rfl
+  | grabMask hd => simp only [step]; unfold grabMask; split <;> rfl
   | hget hd c => rfl
   | hset hd c v => exact (sameShape_hset ..).impl
   | hdump hd => rfl
@@ -793,14 +806,24 @@ theorem step_impl (s : State) (op : Op) : (step s op).1.impl = s.impl := by
       · split <;> rfl
 
 theorem Inv_run {s : State} (hw : WF s) (h : EmpInv s) (ops : List Op)
-    (hs : ∀ op ∈ ops, op.safe s.impl = true) : EmpInv (run s ops).1 := by
+    (hs : safeHist s ops) : EmpInv (run s ops).1 := by
   induction ops generalizing s with
   | nil => exact h
   | cons op ops ih =>
     simp only [run]
-    refine ih (WF_step hw op) (EmpInv_step hw h op (hs op (List.mem_cons_self ..))) ?_
-    intro op' hop'
-    rw [step_impl]
-    exact hs op' (List.mem_cons_of_mem _ hop')
+    exact ih (WF_step hw op) (EmpInv_step hw h op hs.1) hs.2
+
+/-- a history of statically safe ops without writes through references is safe in every state -/
+theorem safeHist_of_static (s : State) (ops : List Op) (h1 : ∀ op ∈ ops, op.safe s.impl = true)
+    (h2 : ∀ op ∈ ops, ∀ h c v, op ≠ .hset h c v) : safeHist s ops := by
+  induction ops generalizing s with
+  | nil => trivial
+  | cons op ops ih =>
+    refine ⟨?_, ih _ (fun o ho => by rw [step_impl]; exact h1 o (List.mem_cons_of_mem _ ho))
+      (fun o ho => h2 o (List.mem_cons_of_mem _ ho))⟩
+    have := h1 op (List.mem_cons_self ..)
+    cases op
+    case hset hd c v => exact absurd rfl (h2 _ (List.mem_cons_self ..) hd c v)
+    all_goals exact this
 
 end Mesa.Layers
